@@ -162,7 +162,12 @@ def build_task(job):
         base = gen.make_task(job["derive_from"], job["objective"], data=dict(data), **kw)
         base.get_variables(); base.get_bounds(); base.correct_solution(base.initial_solution()); base.transform_solution(base.initial_solution())
         return base.model_copy(update={"variables": [gen.make_variable(s, f"v{i}") for i, s in enumerate(job["specs"])], "data": {"objective": job["objective"], **data}})
-    return gen.make_task(job["specs"], job["objective"], data=data, **kw)
+    t = gen.make_task(job["specs"], job["objective"], data=data, **kw)
+    if job.get("append_variable_after"):
+        # the caller edits the task after building it (pydantic does not re-validate assigned fields): whatever is stale then is the caller's business,
+        # optimize() must still leave every field as it found it
+        t.variables = list(t.variables) + [gen.make_variable(job["append_variable_after"], "late")]
+    return t
 
 
 def _plain(x):
